@@ -22,42 +22,80 @@ Proof.
   rewrite path_eqb_sym, E. reflexivity.
 Qed.
 
-Theorem decider_sound : forall i o, check_C17 i o = true -> C17_holds i o.
+Lemma fields_eqb_refl a : fields_eqb a a = true.
 Proof.
-  induction i as [|s i IH]; destruct o as [|x o]; cbn [check_C17]; try discriminate; intros H; [constructor|].
-  apply andb_true_iff in H. destruct H as [Hs Hr]. constructor; [|apply IH; exact Hr].
-  unfold check_step in Hs. unfold step_holds. destruct (so_rejected x). { apply negb_true_iff in Hs. exact Hs. }
-  rewrite !andb_true_iff in Hs. destruct Hs as [[[[H0 H1] H2] H3] H4].
-  destruct (read_header (so_header x)) as [f|]; [|discriminate]. apply fields_eqb_eq in H1. subst f.
-  split; [exact H0|]. split; [reflexivity|]. split; [exact H2|]. split; [exact H3|].
-  destruct (so_views x) as [[a b]|]; [|discriminate]. exists a, b. auto.
+  unfold fields_eqb. rewrite RenderProof.str_eqb_refl.
+  rewrite !RenderProof.list_eqb_refl by apply RenderProof.str_eqb_refl. reflexivity.
 Qed.
 
-Lemma model_steps_holds : forall l G L, load G = MOk L -> wf_hist_from G (map s_rev (filter accepts l)) = true -> forallb step_class l = true ->
-  C17_holds l (model_steps (MOk L) G l).
+Lemma steps_sound : forall i o, check_steps i o = true -> Forall2 step_holds i o.
 Proof.
-  induction l as [|s l IH]; intros G L HL W C; [constructor|].
+  induction i as [|s i IH]; destruct o as [|x o]; cbn [check_steps]; try discriminate; intros H; [constructor|].
+  apply andb_true_iff in H. destruct H as [Hs Hr]. constructor; [|apply IH; exact Hr].
+  unfold check_step in Hs. unfold step_holds. destruct (so_rejected x). { apply negb_true_iff in Hs. exact Hs. }
+  rewrite !andb_true_iff in Hs. destruct Hs as [[[[[H0 HL] H1] H2] H3] H4].
+  destruct (read_header (so_header x)) as [f|]; [|discriminate]. apply fields_eqb_eq in H1. subst f.
+  split; [exact H0|]. split; [exact HL|]. split; [reflexivity|]. split; [exact H2|]. split; [exact H3|].
+  destruct (so_views x) as [[a b]|]; [|discriminate]. exists a, b. auto.
+Qed.
+Lemma steps_complete : forall i o, Forall2 step_holds i o -> check_steps i o = true.
+Proof.
+  induction 1 as [|s x i o Hs _ IH]; [reflexivity|]. cbn [check_steps]. rewrite IH, andb_true_r.
+  unfold step_holds in Hs. unfold check_step. destruct (so_rejected x). { rewrite Hs. reflexivity. }
+  destruct Hs as [H0 [HL [H1 [H2 [H3 [a [b [Hv Hab]]]]]]]]. rewrite H0, HL, H1, H2, H3, Hv, Hab, fields_eqb_refl. reflexivity.
+Qed.
+
+Theorem decider_sound : forall i o, check_C17 i o = true -> C17_holds i o.
+Proof. unfold check_C17, C17_holds. intros i o H. apply andb_true_iff in H. destruct H as [H1 H2]. split; [apply steps_sound; exact H1|exact H2]. Qed.
+Theorem decider_complete : forall i o, C17_holds i o -> check_C17 i o = true.
+Proof. unfold check_C17, C17_holds. intros i o [H1 H2]. rewrite (steps_complete _ _ H1), H2. reflexivity. Qed.
+
+Lemma path_eqb_refl a : path_eqb a a = true.
+Proof. unfold path_eqb. apply RenderProof.list_eqb_refl, N.eqb_refl. Qed.
+Lemma file_eqb_sym a b : file_eqb a b = file_eqb b a.
+Proof.
+  unfold file_eqb. rewrite (path_eqb_sym (fst a)). f_equal. apply (path_eqb_sym (snd a) (snd b)).
+Qed.
+
+(* the model's outputs on a sequence in the class: every step holds, and the files written are the ones computed from the inputs *)
+Lemma model_steps_holds : forall l G L fs, load G = MOk L -> wf_hist_from G (map s_rev (filter accepts l)) = true -> forallb step_class l = true ->
+  forallb (fun f => loadable_name (snd f)) (in_files l) = true ->
+  files_nodupb (in_files l) = true -> forallb (fun f => negb (existsb (file_eqb f) fs)) (in_files l) = true ->
+  Forall2 step_holds l (model_steps (MOk L) G fs l) /\ out_files (model_steps (MOk L) G fs l) = in_files l.
+Proof.
+  induction l as [|s l IH]; intros G L fs HL W C LD ND NF; [split; [constructor|reflexivity]|].
   cbn [forallb] in C. apply andb_true_iff in C. destruct C as [C1 C2].
-  cbn [model_steps filter] in *. destruct (accepts s) eqn:A; cbn [negb].
-  2:{ constructor; [unfold step_holds; reflexivity|]. apply IH; assumption. }
-  cbn [map wf_hist_from] in W. apply andb_true_iff in W. destruct W as [W1 W2].
+  unfold in_files in *. cbn [model_steps filter] in *. destruct (accepts s) eqn:A; cbn [negb].
+  2:{ destruct (IH G L fs HL W C2 LD ND NF) as [I1 I2]. split; [constructor; [unfold step_holds; reflexivity|exact I1]|].
+      unfold out_files in *. cbn [filter rejected_out so_rejected negb]. exact I2. }
+  cbn [map wf_hist_from forallb files_nodupb fst snd] in W, LD, ND, NF.
+  apply andb_true_iff in W, LD, ND, NF. destruct W as [W1 W2], LD as [LD1 LD2], ND as [ND1 ND2], NF as [NF1 NF2].
+  apply negb_true_iff in NF1. rewrite NF1. rewrite LD1. cbn [negb].
   unfold step_class in C1. rewrite !andb_true_iff in C1. destruct C1 as [[[[V1 V2] V3] V4] V5].
   cbn [model_step].
   pose proof (incremental G (s_rev s) L HL W1) as INC.
   destruct (add_revision_ok G (s_rev s) L HL W1) as [L' HL'].
-  rewrite (docstring_safe _ [] V5). cbn [so_module_ok]. rewrite HL'. rewrite <- INC, HL'. cbn [res_view].
-  constructor.
-  - unfold step_holds. cbn [so_header so_loaded so_module_ok so_views so_rejected so_dir].
-    split; [apply accepted_is_scanned; exact A|].
+  rewrite (docstring_safe _ [] V5). cbn [so_module_ok]. rewrite HL'. rewrite <- INC, HL'. cbn [res_view has_views so_views andb].
+  assert (HL2: load (G ++ [s_rev s]) = MOk L') by (rewrite <- INC; exact HL').
+  assert (NF': forallb (fun f => negb (existsb (file_eqb f) ((s_vp s, step_file s) :: fs)))
+                       (map (fun s0 => (s_vp s0, step_file s0)) (filter accepts l)) = true).
+  { apply forallb_forall. intros g Hg. cbn [existsb]. rewrite forallb_forall in NF2. specialize (NF2 g Hg). apply negb_true_iff in NF2. rewrite NF2, orb_false_r.
+    apply negb_true_iff. apply negb_true_iff in ND1. rewrite file_eqb_sym.
+    destruct (file_eqb (s_vp s, step_file s) g) eqn:E; [|reflexivity].
+    exfalso. assert (X: existsb (file_eqb (s_vp s, step_file s)) (map (fun s0 => (s_vp s0, step_file s0)) (filter accepts l)) = true).
+    { apply existsb_exists. exists g. split; assumption. } rewrite X in ND1. discriminate. }
+  destruct (IH _ _ _ HL2 W2 C2 LD2 ND2 NF') as [I1 I2]. split.
+  - constructor; [|exact I1]. unfold step_holds. cbn [so_header so_loaded so_module_ok so_views so_rejected so_dir so_file].
+    split; [apply accepted_is_scanned; exact A|]. split; [exact LD1|].
     split; [apply header_roundtrip; assumption|]. split; [reflexivity|]. split; [reflexivity|].
-    exists (view_of L'), (view_of L'). split; [reflexivity|]. apply view_eqb_refl.
-    rewrite INC in HL'. apply (load_ids_nodup _ _ HL').
-  - apply IH; [rewrite <- INC; exact HL'|exact W2|exact C2].
+    exists (view_of L'), (view_of L'). split; [reflexivity|]. apply view_eqb_refl. apply (load_ids_nodup _ _ HL2).
+  - unfold out_files in *. cbn [filter so_rejected negb map so_dir so_file]. rewrite I2. reflexivity.
 Qed.
 
 Theorem model_holds i : inclass_C17 i = true -> C17_holds i (model_C17 i).
 Proof.
-  unfold inclass_C17, model_C17. intros H. apply andb_true_iff in H. destruct H as [W C].
+  unfold inclass_C17, model_C17, names_class. intros H. rewrite !andb_true_iff in H. destruct H as [[W C] [N1 N2]].
   assert (E: load [] = MOk (mkMap [] [] [] [] [] [] [] [])) by reflexivity. rewrite E.
-  apply model_steps_holds; assumption.
+  assert (NF: forallb (fun f => negb (existsb (file_eqb f) [])) (in_files i) = true) by (apply forallb_forall; intros; reflexivity).
+  destruct (model_steps_holds i [] _ [] E W C N1 N2 NF) as [I1 I2]. split; [exact I1|]. rewrite I2. exact N2.
 Qed.
